@@ -13,7 +13,7 @@
      <id> bwt <hex>                -> <id> <hex> <ptr>
      <id> mtf <dicthex> <hex>      -> <id> <s0,s1,...>
      <id> genlen <c0,c1,...>       -> <id> <l0,l1,...>
-     <id> hsym <l0,l1,...> <bits>  -> <id> <sym|err> <bitsused>     (bits: string of 0/1)
+     <id> hsym <l0,l1,...> <bits>  -> <id> <sym|err> <bitsused>     (bits: string of 0/1, "-" if empty)
      <id> bwtdec <ptr> <hex>       -> <id> <hex>
      <id> mtfdec <max> <dicthex> <s0,s1,...> -> <id> ok <hex> | <id> err
      <id> rle1dec <hex>            -> <id> <err> <hex> <crc>
@@ -87,7 +87,7 @@ let handle (kind : string) (args : string list) : string =
     csv_of_ns (lengths_of_counts (List.map n_of_int (ints_of_csv cs)))
   | "hsym", [ls; bits] ->
     let t = mk_table (List.map n_of_int (ints_of_csv ls)) in
-    let bl = List.init (String.length bits) (fun i -> bits.[i] = '1') in
+    let bl = if bits = "-" then [] else List.init (String.length bits) (fun i -> bits.[i] = '1') in
     let r = run (read_symbol t) (ast_init bl) in
     (match r with
      | Done (s, st) -> Printf.sprintf "%d %d" (int_of_n s) (int_of_n st.a_pos)
